@@ -510,6 +510,9 @@ def run(ctx, drv):
         'bytes.decode(errors="replace") is only modelled on valid UTF-8 (always the case for rendered links)',
     ]
     rng = ctx.rng
+    for c in mg.corpus_cases('C13'):          # past failures first
+        ctx.dist['corpus'] += 1
+        _eval_case(ctx, drv, c)
     eval_quote(ctx, drv)
     kws = FIXED + [gen_kwargs(rng) for _ in range(ctx.n(20000, 300000))]
     eval_magnets(ctx, drv, kws)
@@ -535,8 +538,7 @@ def search(ctx, drv):
     eval_torrents(ctx, drv, [gen_torrent(rng) for _ in range(ctx.n(4000, 40000))])
 
 
-def replay(ctx, drv, rp):
-    c = rp['case']
+def _eval_case(ctx, drv, c):
     k = c.get('kind')
     if k == 'magnet':
         eval_magnets(ctx, drv, [c['kwargs']])
@@ -546,5 +548,9 @@ def replay(ctx, drv, rp):
         eval_parser(ctx, drv, [c['uri']])
     else:
         eval_quote(ctx, drv)
+
+
+def replay(ctx, drv, rp):
+    _eval_case(ctx, drv, rp['case'])
     return {'fails': bool(ctx.violations or ctx.known or ctx.corr_breaks), 'violations': ctx.violations,
             'known': list(ctx.known), 'corr_breaks': ctx.corr_breaks}
